@@ -158,7 +158,7 @@ def value_store():
 
 
 def all_small():
-    return form_accessor() + value_store() + input_store_init()
+    return form_accessor() + value_store() + input_store_init() + exception_classes()
 
 
 if __name__ == '__main__':
@@ -243,3 +243,33 @@ def native_store_roundtrip():
         finally:
             os.unlink(path)
     return {'reproduced': bad, 'runs': runs}
+
+
+def exception_classes():
+    """The control-flow exceptions must not be swallowed by the Mapping mixins (get / __contains__ catch KeyError),
+    otherwise a read through v.get(...) / `name in v` of an unvalued line would not reach the solver (line oracle, A-PURE)."""
+    from habutax import values, inputs, fields
+    obs = []
+    for mod, name in ((values, 'UnmetDependency'), (inputs, 'MissingInput'), (inputs, 'MissingInputSpecification'), (inputs, 'InvalidInput'), (fields, 'FieldNotImplemented')):
+        cls = getattr(mod, name, None)
+        ok = isinstance(cls, type) and issubclass(cls, Exception) and not issubclass(cls, (LookupError, ArithmeticError, AttributeError, StopIteration, AssertionError, TypeError, ValueError))
+        oid = f'SMALL/exceptions/{name}-is-not-swallowed-by-mapping-mixins'
+        if ok:
+            obs.append(Ob(id=oid, backend='ground-eval', function=f'{mod.__name__.split(".")[-1]}.py:{name}', note='C01,C03,C04,C13',
+                          clause=f'{name} derives from Exception and from none of the classes the Mapping mixins or the solver itself catch for other purposes (KeyError/LookupError, ...)', vc=str(cls.__mro__)[:200]))
+        else:
+            rep = {'reproduced': True, 'mro': str(getattr(cls, '__mro__', None))[:300]}
+            if name == 'UnmetDependency':
+                from habutax import form
+
+                class F(object):
+                    def name(self):
+                        return 'f'
+                acc = form.FormAccessor(values.ValueStore(), F())
+                try:
+                    rep['FormAccessor.get_of_unvalued_line'] = repr(acc.get('x', 'DEFAULT'))
+                except BaseException as ex:
+                    rep['FormAccessor.get_of_unvalued_line'] = f'raised {type(ex).__name__}'
+            obs.append(Ob(id=oid, status=oblig.REFUTED, backend='ground-eval', function=f'{mod.__name__.split(".")[-1]}.py:{name}', note='C01,C03,C04,C13',
+                          clause=f'{name} is (a subclass of) an exception that dict-style access swallows: v.get(...) / `in` hide the dependency from the solver', witness={'mro': rep['mro']}, replay=rep))
+    return obs
